@@ -823,8 +823,12 @@ jcLiteralChar(String s)
 		t = strCopy("\\'");
 	else if (s[0] == '"')
 		t = strCopy("\\\"");
+	else if (s[0] == '\\')
+		t = strCopy("\\\\");
 	else if (s[0] == '\n')
 		t = strCopy("\\n");
+	else if (s[0] == '\r')
+		t = strCopy("\\r");
 	else if (s[0] == '\t')
 		t = strCopy("\\t");
 	else if (s[0] == -1)
